@@ -34,15 +34,25 @@ _stored = z3.Function("Y_stored", z3.IntSort(), z3.IntSort(), z3.BoolSort())
 
 
 class SEigs(Model):
-    def __init__(self, nblocks, sym=False, real=False):
-        self.nblocks, self.sym, self.real = nblocks, sym, real
+    """`eigs`: one entry per block.  An identically zero H_0 block is represented by the 0-d array np.array(0)
+    (postcondition of _extract_diagonal); `zero_block` is the (symbolic) index of such a block, if any."""
+
+    def __init__(self, nblocks, sym=False, real=False, zero_block=None):
+        self.nblocks, self.sym, self.real, self.zero_block = nblocks, sym, real, zero_block
 
     def energy(self, b, a):
-        return Cx(_Er(b, a), R0 if self.real else _Ei(b, a))
+        e = Cx(_Er(b, a), R0 if self.real else _Ei(b, a))
+        if self.zero_block is not None:
+            return cx_if(b == self.zero_block, Cx(R0), e)
+        return e
 
     def m_getitem(self, eng, key):
         b = zi(key)
         eng.oblige(f"eigs-index-in-range@{eng.site()}", z3.And(b >= 0, b < self.nblocks))
+        if self.zero_block is not None and eng.branch(b == self.zero_block):
+            if self.sym:
+                return PSym([], lambda i: SymVal(Cx(R0)), f"eigs[{b}]=0", is_matrix=False)
+            return PArr([], lambda i: Cx(R0), "num", False, f"eigs[{b}]=0")
         if self.sym:
             return PSym([_dim(b)], lambda i: SymVal(self.energy(b, i[0])), f"eigs[{b}]", is_matrix=False)
         return PArr([_dim(b)], lambda i: self.energy(b, i[0]), "num", False, f"eigs[{b}]")
@@ -67,7 +77,7 @@ class SCheckedSet(Model):
         raise Unsupported(f"set.{name}")
 
 
-def make_harness(kind, atol_none=False, canary=False, real_energies=False):
+def make_harness(kind, atol_none=False, canary=False, real_energies=False, zero_block=None):
     """kind in {'zero','dense','sparse','sympy'}"""
     outer = frontend.find(MODULE, "solve_sylvester_diagonal")
     inner = frontend.find(MODULE, "solve_sylvester_diagonal/solve_sylvester")
@@ -80,7 +90,14 @@ def make_harness(kind, atol_none=False, canary=False, real_energies=False):
         eng.assume(_dim(j) >= 0)
         atol = z3.Real("atol")
         eng.assume(atol >= 0)
-        eigs = SEigs(B, sym=(kind == "sympy"), real=real_energies)
+        zb_ = None
+        if zero_block == "row":
+            zb_ = i
+        elif zero_block == "col":
+            zb_ = j
+        eigs = SEigs(B, sym=(kind == "sympy"), real=real_energies, zero_block=zb_)
+        if zero_block is not None:
+            eng.assume(i != j)
         checked = SCheckedSet(eng)
         eng.isclose_fn = z3.Function("isclose", z3.RealSort(), z3.RealSort(), z3.RealSort(), z3.RealSort(), z3.BoolSort())
         sparse_ns = Namespace("sparse", {
@@ -129,7 +146,8 @@ def make_harness(kind, atol_none=False, canary=False, real_energies=False):
             eng.oblige("zero-rhs-no-check", z3.BoolVal(not checked.adds))
             return
         # accepted: instantiate the np.any facts at (a, b)
-        pw.instantiate_any(eng, [[a, b]])
+        z0 = z3.IntVal(0)
+        pw.instantiate_any(eng, [[a, b], [a, z0], [z0, b], [z0, z0]])   # broadcast shapes when a block's energies are a 0-d array
         if kind == "sympy":
             shared_ab = Ea.eq(Fb)
         elif atol_none:
@@ -188,9 +206,10 @@ def make_harness(kind, atol_none=False, canary=False, real_energies=False):
 SReal = pw.SReal
 
 
-def unit_sylvester_diagonal(kind, timeout_ms=20000, canary=False, atol_none=False):
-    nm = f"block_diagonalization:solve_sylvester_diagonal/solve_sylvester[{kind}{',atol=None' if atol_none else ''}]" + ("[canary]" if canary else "")
-    return run_unit(nm, make_harness(kind, atol_none=atol_none, canary=canary),
+def unit_sylvester_diagonal(kind, timeout_ms=20000, canary=False, atol_none=False, zero_block=None):
+    """zero_block in {None, 'row', 'col'}: the row / column block of the pair is an identically zero H_0 block (0-d energies)"""
+    nm = f"block_diagonalization:solve_sylvester_diagonal/solve_sylvester[{kind}{',atol=None' if atol_none else ''}{',zero ' + zero_block + ' block' if zero_block else ''}]" + ("[canary]" if canary else "")
+    return run_unit(nm, make_harness(kind, atol_none=atol_none, canary=canary, zero_block=zero_block),
                     functions=[(MODULE, "solve_sylvester_diagonal/solve_sylvester")], timeout_ms=timeout_ms)
 
 
